@@ -3,6 +3,7 @@ import numpy as np
 
 from vf import util, sysrun
 from vf.problems import Manufactured, dtype_of, rng_for
+from vf.instrument import StepLog
 
 LEVEL = "exploration"
 RULE = ("one case = (method or Richardson wrapper, direction, history shape, dt/tolerance, seed); after every integrate() return/raise the live "
@@ -12,10 +13,10 @@ RULE = ("one case = (method or Richardson wrapper, direction, history shape, dt/
         "(method, direction, history, seed)")
 ASSUMPTIONS = ["interior bound: 4*(h^4*max|y''''|/384 + node error*(1+h*L)) + rounding; Richardson wrappers are compared at K*tolerance"]
 FLOORS = {"quick": {"quiescent_checks": 150, "pieces_checked": 2000, "queries_checked": 8000, "backward_runs_10_pieces": 20, "post_terminal_objects": 10,
-                    "post_failure_objects": 10, "splitting_runs": 4, "richardson_runs": 3},
+                    "post_failure_objects": 10, "splitting_runs": 4, "richardson_runs": 3, "failures_inside_a_retry": 3},
           "thorough": {"quiescent_checks": 1500, "pieces_checked": 20000, "queries_checked": 80000, "backward_runs_10_pieces": 200, "post_terminal_objects": 100,
-                       "post_failure_objects": 100, "splitting_runs": 40, "richardson_runs": 30}}
-HISTORIES = ["single", "split", "terminal_continue", "fail_resume", "events_nonterminal", "query_between"]
+                       "post_failure_objects": 100, "splitting_runs": 40, "richardson_runs": 30, "failures_inside_a_retry": 30}}
+HISTORIES = ["single", "split", "terminal_continue", "fail_resume", "events_nonterminal", "query_between", "fail_in_retry"]
 QUICK_METHODS = ["RK45CKSolver", "DOPRI45", "RK4Solver", "EulerSolver", "HeunEulerSolver", "RK8713MSolver", "ABAs5o6HSolver", "SymplecticEulerSolver",
                  "BABs9o7HSolver", "BackwardEuler", "RadauIIA5", "GaussLegendre4", "CrankNicolson", "LobattoIIIC4", "MidpointSolver", "RK108Solver"]
 CASE_TIMEOUT = 900
@@ -185,11 +186,18 @@ def run_case(spec):
     feats = {"method": spec["method"], "richardson": spec["rich"], "family": info["family"], "direction": d, "history": spec["history"]}
     fault = {"at": None, "n": 0}
 
+    retry = {"armed": False, "log": None, "system": None}
+
     def f(t, y, **kw):
         fault["n"] += 1
         if fault["at"] is not None and fault["n"] == fault["at"]:
             fault["at"] = None
             raise Fault("injected")
+        if retry["armed"] and retry["log"] is not None and len(retry["system"]) >= 3:
+            at = retry["log"].attempts
+            if len(at) >= 2 and at[-1]["t"] == at[-2]["t"] and at[-2]["raised"] is None:
+                retry["armed"] = False      # we are inside the RETRY of a rejected attempt of a later step: fail here
+                raise Fault("injected in retry")
         return prob.rhs(t, y)
 
     def fpure(t, y):
@@ -231,13 +239,35 @@ def run_case(spec):
         seg = step("after_terminal_stop", events=[ev_nt, ev_term])
         rec.bump("post_terminal_objects")
         step("after_continuation")
+    elif hist == "fail_in_retry":
+        # a callback inflates dt every few steps so that the next attempt is rejected; the fault fires inside the retry
+        if info["adaptive"] and not spec["rich"]:
+            retry["log"] = StepLog(system.integrator)
+            retry["system"] = system
+            retry["armed"] = True
+
+            def inflate(s_):
+                if len(s_) % 3 == 0:
+                    s_.dt = 8.0 * float(s_.dt)
+            seg = step("after_failure_in_retry", callback=inflate)
+            if seg["raised"] and not retry["armed"]:
+                rec.bump("post_failure_objects")
+                rec.bump("failures_inside_a_retry")
+            retry["armed"] = False
+            step("after_resume")
+        else:
+            step("after_run")
     elif hist == "fail_resume":
-        fault["at"] = fault["n"] + int(rng.integers(8, 60))
-        seg = step("after_failure")
-        if seg["raised"]:
-            rec.bump("post_failure_objects")
-        fault["at"] = None
-        step("after_resume")
+        # several failures in one history, each at a random user-function call of its leg (later ones fall into steps that are not the
+        # first of the run, often into the retry of a rejected step), each followed by a resume
+        for leg, frac in enumerate((0.35, 0.7, 1.0)):
+            tgt = None if frac == 1.0 else t0 + frac * (tf - t0)
+            fault["at"] = fault["n"] + int(rng.integers(3, 45))
+            seg = step("after_failure_%d" % leg, t=tgt)
+            if seg["raised"]:
+                rec.bump("post_failure_objects")
+            fault["at"] = None
+            step("after_resume_%d" % leg, t=tgt)
     npieces = 0 if system.sol is None or system.sol.t_eval is None else len(system.sol.y_interpolants)
     rec.nontrivial = npieces >= 5
     if d < 0 and npieces >= 10:
